@@ -73,14 +73,14 @@ def _bg_rgb(bg):
     return css_color.read_unique(bg)
 
 
-def judge_list(idx, mode, vr, table=None):
+def judge_list(idx, mode, vr, table=None, container="list"):
     from cm_colors import make_readable_bulk
 
     table = table or _table()
     entries = [E[i][0] for i in idx]
-    case = {"kind": "list", "idx": list(idx), "mode": mode, "very_readable": vr}
+    case = {"kind": "list", "idx": list(idx), "mode": mode, "very_readable": vr, "container": container}
     try:
-        res = make_readable_bulk(list(entries), mode=mode, very_readable=vr)
+        res = make_readable_bulk(tuple(entries) if container == "tuple" else list(entries), mode=mode, very_readable=vr)
     except Exception as e:  # noqa
         return [dict(sig="bulk/raises", case=case, observed=repr(e), msg="make_readable_bulk(%r, mode=%d, very_readable=%s) raised %r" % (entries, mode, vr, e))]
     if not isinstance(res, list) or len(res) != len(entries):
@@ -119,7 +119,7 @@ def judge_list(idx, mode, vr, table=None):
 
 
 def judge_case(case):
-    return judge_list(case["idx"], case["mode"], case["very_readable"])
+    return judge_list(case["idx"], case["mode"], case["very_readable"], None, case.get("container", "list"))
 
 
 def chunk(job):
@@ -127,6 +127,8 @@ def chunk(job):
     out = []
     for m, vr in SETTINGS:
         vs = judge_list(idx, m, vr, table)
+        if len(idx) in (2, 3, 17) and (m, vr) in ((0, True), (1, False)):
+            vs = vs + judge_list(idx, m, vr, table, "tuple")   # the same entries handed over as a tuple
         if vs and len(out) < 6:
             out += vs
     return len(SETTINGS), len(idx) * len(SETTINGS), out
